@@ -425,7 +425,7 @@ impl ReceiverLinkD {
 //@@ subst `let mut lock = self.unsettled.write();` => `let mut lock = &mut self.unsettled;` rule=R4
 //@@ subst `lock.as_mut() .and_then(|map| map.swap_remove(&delivery_info.delivery_tag))` => `opt_swap_remove(&mut *lock, &delivery_info.delivery_tag)` rule=R15
 //@@ subst `lock.as_mut() .and_then(|map| map.get_mut(&delivery_info.delivery_tag)) .map(|entry| entry.replace(state.clone()))` => `opt_replace_if_present(&mut *lock, &delivery_info.delivery_tag, Some(state.clone()))` rule=R15
-//@@ subst `.map_err(|_v0| __E1)` => `.map_err(|_v0: ChanSendError| -> (o: DispositionError) ensures o == disp_stop_err(self.session_stop_reason.val()) { __E1 })` rule=R18
+//@@ subst `.map_err(|_v0| __E1)` => `.map_err(|_v0: ChanSendError| -> (o: DispositionError) ensures o == disp_stop_err(self.session_stop_reason.val()) { __E1 })` rule=R18 unless `\.map_err\(`
 //@@ spec
     ensures
         ({
@@ -455,8 +455,8 @@ impl ReceiverLinkD {
 //@@ subst `let mut lock = self.unsettled.write();` => `let mut lock = &mut self.unsettled;` rule=R4
 //@@ subst `lock.as_mut() .and_then(|map| map.swap_remove(&info.delivery_tag));` => `opt_swap_remove(&mut *lock, &info.delivery_tag);` rule=R15
 //@@ subst `if let Some(entry) = lock .as_mut() .and_then(|map| map.get_mut(&info.delivery_tag)) { *entry = Some(state.clone()); }` => `opt_replace_if_present(&mut *lock, &info.delivery_tag, Some(state.clone()));` rule=R15
-//@@ subst `consecutive_infos.last().map(|el| el.delivery_id)` => `Some(consecutive_infos[consecutive_infos.len() - 1].delivery_id)` rule=R19
-//@@ subst `.map_err(|_v0| __E1)` => `.map_err(|_v0: ChanSendError| -> (o: DispositionError) ensures o == disp_stop_err(self.session_stop_reason.val()) { __E1 })` rule=R18
+//@@ subst `consecutive_infos.last().map(|el| el.delivery_id)` => `Some(consecutive_infos[consecutive_infos.len() - 1].delivery_id)` rule=R19 unless `\.map\(`
+//@@ subst `.map_err(|_v0| __E1)` => `.map_err(|_v0: ChanSendError| -> (o: DispositionError) ensures o == disp_stop_err(self.session_stop_reason.val()) { __E1 })` rule=R18 unless `\.map_err\(`
 //@@ spec
     ensures
         final(self).rcv_settle_mode == old(self).rcv_settle_mode,
@@ -570,7 +570,7 @@ impl ReceiverDisposerD {
 //@@ subst `let mut lock = self.unsettled.write();` => `let mut lock = &mut self.unsettled;` rule=R4
 //@@ subst `lock.as_mut() .and_then(|map| map.swap_remove(&delivery_info.delivery_tag))` => `opt_swap_remove(&mut *lock, &delivery_info.delivery_tag)` rule=R15
 //@@ subst `lock.as_mut() .and_then(|map| map.get_mut(&delivery_info.delivery_tag)) .map(|entry| entry.replace(state.clone()))` => `opt_replace_if_present(&mut *lock, &delivery_info.delivery_tag, Some(state.clone()))` rule=R15
-//@@ subst `.map_err(|_v0| __E1)` => `.map_err(|_v0: ChanSendError| -> (o: DispositionError) ensures o == disp_stop_err(self.session_stop_reason.val()) { __E1 })` rule=R18
+//@@ subst `.map_err(|_v0| __E1)` => `.map_err(|_v0: ChanSendError| -> (o: DispositionError) ensures o == disp_stop_err(self.session_stop_reason.val()) { __E1 })` rule=R18 unless `\.map_err\(`
 //@@ spec
     requires old(self).processed.v < 0x8000_0000,
     ensures
@@ -917,7 +917,7 @@ impl<R, T, F, M> Link<R, T, F, M> {
 //@@ fn file=fe2o3-amqp/src/link/mod.rs impl=`impl<R, T, F, M> endpoint::LinkDetach for Link<R, T, F, M> where R: role::IntoRole + Send + Sync, T: Send, F: AsRef<LinkFlowState<R>> + Send + Sync, M: AsDeliveryState + Send + Sync,` name=send_detach
 //@@ param writer : &mut ChanSender<LinkFrame>
 //@@ subst `handle.into()` => `output_to_handle(handle)` rule=R16
-//@@ subst `.map_err(|_v0| __E1)` => `.map_err(|_v0: ChanSendError| -> (o: DetachError) ensures o == detach_stop_err(self.session_stop_reason.val()) { __E1 })` rule=R18
+//@@ subst `.map_err(|_v0| __E1)` => `.map_err(|_v0: ChanSendError| -> (o: DetachError) ensures o == detach_stop_err(self.session_stop_reason.val()) { __E1 })` rule=R18 unless `\.map_err\(`
 //@@ spec
     ensures
         ({
